@@ -323,6 +323,12 @@ void mmd_export_link_html(DString * out, const char * source, token * text, link
 		mmd_export_token_tree_html(out, source, text->child, scratch);
 	}
 
+	// Leave the token as we found it, so that the tree can be exported again
+	if (text && text->child && text->child->len > 1) {
+		text->child->next->start++;
+		text->child->next->len--;
+	}
+
 	print_const("</a>");
 }
 
